@@ -25,7 +25,7 @@ PANICKY_CALLS = ('::unwrap', '::expect', 'panicking::panic', 'panic_fmt', 'asser
 
 
 def run(ctx, chk):
-    fb = ctx.facts('dev')
+    fb = ctx.facts()
     chk.explanation = ('M1: drift >= 1e9 -> SegmentMalformed decided before any use of the drift (interval of the drift '
                        'atom on every path). M2: duration table over mono - as_of: >=0 -> age, (-blur,0) -> 0, <= -blur -> '
                        'CausalityBreach. M3: every integer op / TimeSpec op / float->int conversion on the Ok paths is '
